@@ -12,7 +12,9 @@ SEQC = {'d1': 'aseq', 'r1': 'rseq', 'c1': 'mat', 'd2': 'aseq', 'r2': 'rseq', 'c2
 STATUS = ('is_trained', 'is_warm', 'warm_started_by')
 
 
-def both(body):
+def both(body, trig=None):
+    if trig:
+        return 'forall_arm(lambda x: implies(mem(p.arms, x), %s), lambda x: %s)' % (body, trig)
     return 'forall_arm(lambda x: implies(mem(p.arms, x), %s))' % body
 
 
@@ -26,20 +28,33 @@ def same(maps, status=True):
 TWIN_REQ = ['INV(p)', 'INV(q)', 'p.arms == q.arms', 'slen(p.arms) > 0', 'slen(d1) == slen(r1)', 'slen(d2) == slen(r2)']
 
 
-def twins(cls, maps, cfg=(), extra_req=(), extra_ens=(), scalars=()):
+def twins(cls, maps, cfg=(), extra_req=(), extra_ens=(), scalars=(), mid=None):
     fn('lemma_incremental.c06_split', cls=cls, props='C06',
        params={'p': 'obj:' + cls, 'q': 'obj:' + cls, **SEQ},
        requires=TWIN_REQ + ['p.%s == q.%s' % (c, c) for c in cfg] + list(extra_req),
        modifies=['p.**', 'q.**'], chain=True, twins=('p', 'q'),
        ensures=['[C06,same.%s] p.%s == q.%s' % (s, s, s) for s in scalars] +
-               ['[C06,same.%s] ' % m + both('val(p.%s, x) == val(q.%s, x)' % (m, m)) for m in maps] +
+               [c for m in maps for c in ([(mid or {})[m]] if m in (mid or {}) else []) +
+                ['[C06,same.%s] ' % m + both('val(p.%s, x) == val(q.%s, x)' % (m, m))]] +
                ['[C06,same.status] ' + both(same([]))] + list(extra_ens))
 
 
 twins('_EpsilonGreedy', ['arm_to_sum', 'arm_to_count', 'arm_to_expectation'], cfg=['epsilon'])
 twins('_UCB1', ['arm_to_sum', 'arm_to_count', 'arm_to_mean', 'arm_to_expectation'], cfg=['alpha'],
       scalars=['total_count'])
-twins('_Softmax', ['arm_to_sum', 'arm_to_count', 'arm_to_mean', 'arm_to_exponent', 'arm_to_expectation'], cfg=['tau'])
+# Softmax: the learned statistics (sum, count, mean) are compared by the split lemma; that the derived exponents and
+# shares then agree is a statement about the invariant alone (derived_same), kept apart so that the solver is not
+# handed the concatenation facts it does not need
+twins('_Softmax', ['arm_to_sum', 'arm_to_count', 'arm_to_mean'], cfg=['tau'])
+fn('lemma_incremental.derived_same', cls='_Softmax', props='C06 C20',
+   params={'p': 'obj:_Softmax', 'q': 'obj:_Softmax'},
+   requires=['INV(p)', 'INV(q)', 'p.arms == q.arms', 'slen(p.arms) > 0', 'p.tau == q.tau',
+             both('val(p.arm_to_mean, x) == val(q.arm_to_mean, x)')],
+   modifies=[], chain=True, twins=('p', 'q'),
+   ensures=['[C06,C20,derived.max] mmax(p.arm_to_mean) == mmax(q.arm_to_mean)',
+            '[C06,C20,derived.exponent] ' + both('val(p.arm_to_exponent, x) == val(q.arm_to_exponent, x)'),
+            '[C06,C20,derived.total] msum(p.arm_to_exponent) == msum(q.arm_to_exponent)',
+            '[C06,C20,derived.share] ' + both('val(p.arm_to_expectation, x) == val(q.arm_to_expectation, x)')])
 twins('_Popularity', ['arm_to_sum', 'arm_to_count', 'arm_to_expectation'], cfg=[])
 BQ = lambda d, r: ('binary(binarized(p.binarizer, %s, %s) if (not is_none(p.binarizer) and '     # noqa: E731
                    'not p.is_contextual_binarized) else %s)' % (d, r, r))
@@ -78,20 +93,22 @@ ROWS = {'d': 'aseq', 'r': 'rseq', 'perm': 'iseq'}
 ROW_REQ = ['INV(p)', 'INV(q)', 'p.arms == q.arms', 'slen(p.arms) > 0', 'slen(d) == slen(r)', 'isperm(perm, slen(d))']
 
 
-def rows_lemma(cls, maps, cfg=(), extra_req=(), scalars=()):
+def rows_lemma(cls, maps, cfg=(), extra_req=(), scalars=(), mid=None):
     fn('lemma_invariance.c20_rows', cls=cls, props='C20',
        params={'p': 'obj:' + cls, 'q': 'obj:' + cls, **ROWS},
        requires=ROW_REQ + ['p.%s == q.%s' % (c, c) for c in cfg] + list(extra_req),
        modifies=['p.**', 'q.**'], chain=True, twins=('p', 'q'),
        ensures=['[C20,rows.%s] p.%s == q.%s' % (s, s, s) for s in scalars] +
-               ['[C20,rows.%s] ' % m + both('val(p.%s, x) == val(q.%s, x)' % (m, m)) for m in maps] +
+               [c for m in maps for c in ([(mid or {})[m]] if m in (mid or {}) else []) +
+                ['[C20,rows.%s] ' % m + both('val(p.%s, x) == val(q.%s, x)' % (m, m))]] +
                ['[C20,rows.status] ' + both(same([]))])
 
 
 rows_lemma('_EpsilonGreedy', ['arm_to_sum', 'arm_to_count', 'arm_to_expectation'], cfg=['epsilon'])
 rows_lemma('_UCB1', ['arm_to_sum', 'arm_to_count', 'arm_to_mean', 'arm_to_expectation'], cfg=['alpha'],
            scalars=['total_count'])
-rows_lemma('_Softmax', ['arm_to_sum', 'arm_to_count', 'arm_to_mean', 'arm_to_exponent', 'arm_to_expectation'], cfg=['tau'])
+rows_lemma('_Softmax', ['arm_to_sum', 'arm_to_count', 'arm_to_mean', 'arm_to_exponent', 'arm_to_expectation'], cfg=['tau'],
+           mid={'arm_to_exponent': '[C20,rows.max] mmax(p.arm_to_mean) == mmax(q.arm_to_mean)'})
 rows_lemma('_Popularity', ['arm_to_sum', 'arm_to_count', 'arm_to_expectation'])
 # Thompson Sampling without a binarizer (binary rewards): the counts are sums over the arm's rewards
 rows_lemma('_ThompsonSampling', ['arm_to_success_count', 'arm_to_fail_count'],
